@@ -453,6 +453,174 @@ def loss_class_ops():
     return ops
 
 
+# Operations on which the unchanged tree violates the property (reported to the lead with input + patch, decision pending):
+# SpatialTransform.disp(grid) / flow(grid) on a grid other than the transform's own -- DataTensor wrapping detaches (non-rigid),
+# CompositeTransform.disp rounds coordinates on the differentiable path (other domain).  Switched on once /repo is repaired.
+INCLUDE_OPS_AWAITING_DECISION = False
+
+
+def disp_other_grid_ops():
+    ops = []
+
+    def other_grid(D, which):
+        if which == "resampled":     # same domain, other sampling
+            return Grid(size=(8, 7), spacing=(0.75, 1.0), direction=[[0.8, -0.6], [0.6, 0.8]], origin=(1.0, -2.0)) if D == 2 else \
+                Grid(size=(6, 5, 5), spacing=(0.8, 1.2, 0.6), direction=[[1 / 9, -8 / 9, 4 / 9], [4 / 9, 4 / 9, 7 / 9], [-8 / 9, 1 / 9, 4 / 9]], origin=(1.0, -2.0, 0.5))
+        return Grid(size=(6, 5), spacing=(1.0, 1.5), direction=[[0.8, -0.6], [0.6, 0.8]], origin=(1.6, -1.3)) if D == 2 else \
+            Grid(size=(5, 4, 4), spacing=(1.0, 1.5, 0.75), direction=[[1 / 9, -8 / 9, 4 / 9], [4 / 9, 4 / 9, 7 / 9], [-8 / 9, 1 / 9, 4 / 9]], origin=(1.4, -1.6, 0.9))
+
+    def build_for(cls, which, via):
+        def build(D, gen):
+            grid = mk_grid(D, gen)
+            t = cls(grid).to(DT)
+            params = list(t.parameters())
+            with torch.no_grad():
+                for q in params:
+                    q.add_(rnd(gen, *q.shape) * 0.05)
+            h = other_grid(D, which)
+            w = {}
+
+            def value():
+                t.update()
+                return t.disp(h) if via == "disp" else t.flow(h).tensor()
+            with torch.no_grad():
+                w["w"] = rnd(gen, *value().shape)
+            return (lambda: (value() * w["w"]).sum()), params
+        return build
+    for name in ("DisplacementFieldTransform", "StationaryVelocityFieldTransform", "FreeFormDeformation",
+                 "StationaryVelocityFreeFormDeformation", "Translation", "AffineTransform", "RigidTransform"):
+        for which in ("resampled", "other-domain"):
+            for via in ("disp", "flow"):
+                ops.append(Op(f"{name}.{via}({which} grid)", build_for(getattr(S, name), which, via), max_coords=10))
+    return ops
+
+
+def option_variant_ops():
+    """the same operations under their other option values: padding modes and numeric padding values of the samplers, masks and
+    reductions of the losses, Euler orders outside the closed forms, sampling modes of warping / expv"""
+    import deepali.losses as LS
+    ops = []
+
+    # ---- samplers: every padding mode incl. a non-zero scalar value, align_corners both ways
+    def sampler(fn_name, padding, align):
+        def build(D, gen):
+            shape = (5, 6) if D == 2 else (4, 5, 5)
+            data = rnd(gen, 1, 2, *shape).requires_grad_(True)
+            if fn_name == "sample_image":
+                coords = rnd(gen, 1, 7, D, lo=-1.15, hi=1.15).requires_grad_(True)    # some points outside: the padding branch is live
+                w = rnd(gen, 1, 2, 7)
+                f = lambda: (U.sample_image(data, coords, mode="linear", padding=padding, align_corners=align) * w).sum()
+            else:
+                oshape = (3, 4) if D == 2 else (2, 3, 3)
+                coords = rnd(gen, 1, *oshape, D, lo=-1.15, hi=1.15).requires_grad_(True)
+                w = rnd(gen, 1, 2, *oshape)
+                f = lambda: (U.grid_sample(data, coords, mode="linear", padding=padding, align_corners=align) * w).sum()
+            return f, [data, coords]
+        return build
+    for fn_name in ("sample_image", "grid_sample"):
+        for padding in ("zeros", "border", "reflection", 0.375, -1.5):
+            for align in (True, False):
+                ops.append(Op(f"{fn_name}(padding={padding},align_corners={align})", sampler(fn_name, padding, align), max_coords=16))
+
+    def warp(padding, mode):
+        def build(D, gen):
+            grid = mk_grid(D, gen)
+            data = rnd(gen, 1, 1, *grid.shape).requires_grad_(True)
+            flow = smooth_field(D, gen, grid.shape, amp=0.4).movedim(1, -1).contiguous().requires_grad_(True)
+            coords = grid.coords(dtype=DT).unsqueeze(0)
+            w = rnd(gen, 1, 1, *grid.shape)
+            f = lambda: (U.warp_image(data, coords, flow=flow, mode=mode, padding=padding) * w).sum()
+            return f, [data, flow]
+        return build
+    for padding in ("zeros", 0.375):
+        ops.append(Op(f"warp_image(padding={padding})", warp(padding, "linear"), max_coords=16))
+
+    def transformer(padding):
+        def build(D, gen):
+            grid = mk_grid(D, gen)
+            t = S.AffineTransform(grid).to(DT)
+            params = list(t.parameters())
+            with torch.no_grad():
+                for q in params:
+                    q.add_(rnd(gen, *q.shape) * 0.05)
+            data = rnd(gen, 1, 1, *grid.shape).requires_grad_(True)
+            w = rnd(gen, 1, 1, *grid.shape)
+            warp_ = S.ImageTransformer(t, padding=padding).to(DT)
+            return (lambda: (warp_(data) * w).sum()), params + [data]
+        return build
+    for padding in ("zeros", 0.375):
+        ops.append(Op(f"ImageTransformer(AffineTransform,padding={padding})", transformer(padding), max_coords=12))
+
+    # ---- Euler rotations: orders outside the five closed forms (generic product of elementary rotations), every axis
+    def euler(order):
+        def build(D, gen):
+            a = rnd(gen, 2, 3).requires_grad_(True)
+            f0 = lambda: U.euler_rotation_matrix(a, order=order)
+            with torch.no_grad():
+                w = rnd(gen, *f0().shape)
+            return (lambda: (f0() * w).sum()), [a]
+        return build
+    for order in ("XYX", "YXY", "YZY", "ZYX", "XZY", "YXZ", "YZX", "ZXY", "XYZ", "ZYZ", "XZX"):
+        ops.append(Op(f"euler_rotation_matrix({order})", euler(order), dims=(3,)))
+
+    def euler_transform(order):
+        def build(D, gen):
+            grid = mk_grid(3, gen)
+            t = S.EulerRotation(grid, order=order).to(DT)
+            params = list(t.parameters())
+            with torch.no_grad():
+                for q in params:
+                    q.add_(rnd(gen, *q.shape) * 0.1)
+            pts = rnd(gen, 1, 6, 3, lo=-0.6, hi=0.6)
+            w = rnd(gen, 1, 6, 3)
+            return (lambda: (t(pts) * w).sum()), params
+        return build
+    for order in ("XYX", "ZYX", "YZY"):
+        ops.append(Op(f"EulerRotation(order={order}).forward", euler_transform(order), dims=(3,)))
+
+    # ---- losses with masks / other reductions
+    def masked(fn, kwmask, positive=False, channels=2, **kw):
+        def build(D, gen):
+            shape = (6, 7) if D == 2 else (5, 6, 5)
+            lo = 0.05 if positive else -1.0
+            x = rnd(gen, 1, channels, *shape, lo=lo, hi=1.0).requires_grad_(True)
+            y = rnd(gen, 1, channels, *shape, lo=lo, hi=1.0).requires_grad_(True)
+            masks = {k: rnd(gen, 1, 1 if one else channels, *shape, lo=0.2, hi=1.0) for k, one in kwmask.items()}
+            return (lambda: fn(x, y, **masks, **kw)), [x, y]
+        return build
+    soft = [("mse_loss", LF.mse_loss, {}), ("ssd_loss", LF.ssd_loss, {}), ("l1_loss", LF.l1_loss, {}), ("huber_loss", LF.huber_loss, {}),
+            ("smooth_l1_loss", LF.smooth_l1_loss, {}), ("lcc_loss", LF.lcc_loss, {"kernel_size": 3})]
+    for nm, fn, kw in soft:
+        ops.append(Op(f"{nm}(mask)", masked(fn, {"mask": True}, **kw)))
+        ops.append(Op(f"{nm}(reduction=sum)", sim_loss_op(fn, reduction="sum", **kw)))
+    ops.append(Op("mi_loss(mask)", masked(LF.mi_loss, {"mask": True}, channels=1, num_bins=8, vmin=-1.25, vmax=1.25)))
+    for combo in ({"mask": False}, {"source_mask": False, "target_mask": False}, {"source_mask": False}, {"target_mask": False},
+                  {"mask": False, "source_mask": False, "target_mask": False}):
+        ops.append(Op("wlcc_loss(" + "+".join(sorted(combo)) + ")", masked(LF.wlcc_loss, combo, kernel_size=3)))
+    ops.append(Op("losses.WLCC(source_mask+target_mask)",
+                  (lambda D, gen: _wlcc_class(D, gen, LS))))
+    for nm, mk in (("losses.SSD", lambda: LS.SSD()), ("losses.LCC", lambda: LS.LCC(kernel_size=3)), ("losses.L2ImageLoss", lambda: LS.L2ImageLoss())):
+        def build(D, gen, mk=mk):
+            shape = (6, 7) if D == 2 else (5, 6, 5)
+            x = rnd(gen, 1, 2, *shape).requires_grad_(True)
+            y = rnd(gen, 1, 2, *shape).requires_grad_(True)
+            m = rnd(gen, 1, 1, *shape, lo=0.2, hi=1.0)
+            loss = mk()
+            return (lambda: loss(x, y, mask=m)), [x, y]
+        ops.append(Op(f"{nm}(mask)", build))
+    return ops
+
+
+def _wlcc_class(D, gen, LS):
+    shape = (6, 7) if D == 2 else (5, 6, 5)
+    x = rnd(gen, 1, 2, *shape).requires_grad_(True)
+    y = rnd(gen, 1, 2, *shape).requires_grad_(True)
+    ms = rnd(gen, 1, 2, *shape, lo=0.2, hi=1.0)
+    mt = rnd(gen, 1, 2, *shape, lo=0.2, hi=1.0)
+    loss = LS.WLCC(kernel_size=3)
+    return (lambda: loss(x, y, source_mask=ms, target_mask=mt)), [x, y]
+
+
 def registry():
     ops = []
     for name in LINEAR + NONRIGID:
@@ -512,6 +680,9 @@ def registry():
                     continue  # = "<name>.inverse" above
                 ops.append(Op(f"{name}.inverse(update_buffers={ub}).{via}", inverse_op(cls, ub, via), dims=dims, max_coords=10))
     ops += loss_class_ops()
+    ops += option_variant_ops()
+    if INCLUDE_OPS_AWAITING_DECISION:
+        ops += disp_other_grid_ops()
     return ops
 
 
@@ -536,7 +707,8 @@ def fd_check(op, D, seed, max_coords):
         # the operation casts to float32: matching step size and tolerance
         info["note"] = f"output is {y.dtype} for float64 inputs: step 4e-3, tolerance 2e-4 + 4e-3 |fd|"
         eps, tol = 4e-3, 4e-3
-    atol = tol if y.dtype == DT else 2e-4
+    # float32 outputs: the rounding noise of a finite difference grows with the magnitude of the value itself
+    atol = tol if y.dtype == DT else 2e-4 * max(1.0, abs(float(y)))
     if not y.requires_grad:
         problems.append({"kind": "no-grad", "what": "output does not require grad although its inputs do"})
         return info, problems
@@ -569,16 +741,21 @@ def fd_check(op, D, seed, max_coords):
             checked += 1
             worst = max(worst, dev / (1 + abs(fd)))
             if dev > atol + tol * abs(fd) and eps < 1e-3:
-                # float32 arithmetic inside a float64 operation (e.g. float32 grid coordinates) makes a 1e-6 step
-                # meaningless: repeat with the float32 step before calling it a mismatch
-                with torch.no_grad():
-                    flat[k] = old + 2e-3
-                    yp = float(f())
-                    flat[k] = old - 2e-3
-                    ym = float(f())
-                    flat[k] = old
-                fd2 = (yp - ym) / 4e-3
-                if abs(ag - fd2) <= 5e-3 * (1 + abs(fd2)):
+                # float32 arithmetic inside a float64 operation (e.g. float32 grid coordinates) makes a 1e-6 step meaningless,
+                # and a coarse step may cross an interpolation kink: the mismatch stands only if NO step of the ladder agrees
+                agreed = False
+                for e2 in (1e-5, 1e-4, 2e-3):
+                    with torch.no_grad():
+                        flat[k] = old + e2
+                        yp = float(f())
+                        flat[k] = old - e2
+                        ym = float(f())
+                        flat[k] = old
+                    fd2 = (yp - ym) / (2 * e2)
+                    if abs(ag - fd2) <= 2e-3 * (1 + abs(fd2)):
+                        agreed = True
+                        break
+                if agreed:
                     info["coarse_step_used"] = info.get("coarse_step_used", 0) + 1
                     continue
             if dev > atol + tol * abs(fd):
